@@ -197,7 +197,7 @@ def main():
         "hooks": {
             "guard": "verif",
             "enable": "go test -tags verif -overlay <generated overlay.json> (in-package harness files live in /verif/harness/overlay and are mapped into /repo at build time; /repo is not modified)",
-            "baseline_off_cmd": "cd /repo && GOFLAGS=-mod=mod GOPROXY=off go test -vet=off -count=1 -timeout 25m ./...",
+            "baseline_off_cmd": "cd /repo && GOFLAGS=-mod=mod GOPROXY=off go test -json -vet=off -count=1 -timeout 25m ./...",
             "source_commits": hooks.get("source_commits", []),
             "add_only": True,
         },
